@@ -210,7 +210,15 @@ func runHistory(s *kernel.Sim, c *scen.Case) {
 	big := t.Chance("big", 1, 10)
 	opsA := drawOps(t, 0x20, secrets, big)
 	opsB := drawOps(t, 0x90, secrets, big)
-	pre := func(d byte, i int) []byte { return []byte(fmt.Sprintf("clear-%c-%d-%s", d, i, string(make([]byte, i*7)))) }
+	// cleartext prefix frames may be empty (only their headers feed the digest)
+	emptyPre := map[byte][]bool{'A': {t.Chance("preA0-empty", 1, 3), t.Chance("preA1-empty", 1, 3)}, 'B': {t.Chance("preB0-empty", 1, 3), t.Chance("preB1-empty", 1, 3)}}
+	pre := func(d byte, i int) []byte {
+		if emptyPre[d][i] {
+			s.Probe("empty-cleartext-prefix-frame")
+			return nil
+		}
+		return []byte(fmt.Sprintf("clear-%c-%d-%s", d, i, string(make([]byte, i*7))))
+	}
 	sentA, sentB := 0, 0
 	var errs []string
 	fail := func(f string, x ...any) { errs = append(errs, fmt.Sprintf(f, x...)) }
@@ -358,10 +366,15 @@ func runRefSender(s *kernel.Sim, c *scen.Case) {
 		bOps = append(bOps, &op{kind: "msg", frames: [][]byte{t.Bytes("bpl", kernel.Pick(t, "bsz", 0, 5, 64))}, protected: true})
 	}
 	bSent := 0
+	emptyRef, emptyB := t.Chance("ref-empty-prefix", 1, 3), t.Chance("b-empty-prefix", 1, 3)
 	s.Go("REF", func() {
 		// cleartext prefix
 		for i := 0; i < nPreRef; i++ {
-			raw := refcodec.MakeFrame(1, []byte(fmt.Sprintf("ref-clear-%d", i)))
+			rp := []byte(fmt.Sprintf("ref-clear-%d", i))
+			if emptyRef {
+				rp = nil
+			}
+			raw := refcodec.MakeFrame(1, rp)
 			dRef.Add(raw)
 			if _, err := a.Write(raw); err != nil {
 				return
@@ -415,7 +428,11 @@ func runRefSender(s *kernel.Sim, c *scen.Case) {
 			}
 		}
 		for i := 0; i < nPreB; i++ {
-			if err := sb.SendMessage(ctx, []byte(fmt.Sprintf("b-clear-%d", i))); err != nil {
+			bp := []byte(fmt.Sprintf("b-clear-%d", i))
+			if emptyB {
+				bp = nil
+			}
+			if err := sb.SendMessage(ctx, bp); err != nil {
 				rerr = err
 				return
 			}
